@@ -5,7 +5,7 @@ import pool_shared as ps
 import handles as H
 
 PROP = 'C02'
-VARIANTS = ['map', 'imap', 'imapu', 'feeder']
+VARIANTS = ['map', 'imap', 'imapu', 'feeder', 'wait']
 REPLAYERS = {q: 'replayers/map_results.py' for q in (
     'pool.MapResult.__init__', 'pool.MapResult._set', 'pool.Pool._map_async', 'pool.IMapIterator._set',
     'pool.IMapIterator._set_length', 'pool.IMapIterator.next', 'pool.IMapUnorderedIterator._set', 'pool.ApplyResult.get',
@@ -261,9 +261,70 @@ def build_feeder(w):
     return [body]
 
 
+def build_next_blocking(w):
+    """IMapIterator.next (shared by the unordered iterator) when it has to block: nothing is queued and the iteration is
+    not known to be over, so the caller waits on the condition.  While it waits the lock is released and the result
+    handler / the feeder run `_set` and `_set_length` any number of times: on return from wait() the queue, the index, the
+    length and the flag hold *any* values the class invariant allows (index and length only grow / get known).  What the
+    caller then gets must be decided by that state, not by the one before the wait: the oldest queued item if there is
+    one; StopIteration -- never TimeoutError -- if the wake-up was the announcement that everything has been handed out
+    (an empty input, or a lazy input whose end is noticed after its last result was consumed); TimeoutError only if
+    there is still nothing and the iteration is not over.  Ghost: g.woke_len / g.woke_finished / g.woke_first = the
+    state found after the wait."""
+    ps.declare(w, kind='imap')
+    w.spec_funcs['res'] = sp_res
+    w.classes['g'].fields.update({'woke_len': IntS, 'woke_finished': BoolS, 'woke_first': tup(BoolS, ValS), 'waits': IntS})
+    wf = ('allocated(self._items) and len(self._items) >= 0 and allocated(self._unsorted) and self._index >= 0 and '
+          'allocated(self._cache) and (self._length is None or val(self._length) >= self._index)')
+    from pyvc.contracts import havoc_modifies
+
+    def ext_wait(ex, args, kw):
+        me = ex.root.scopes[0]['self']
+        i0 = ex.path.read_field(me, '_index')
+        l0 = ex.path.read_field(me, '_length')
+        havoc_modifies(ex, ['self._items.*', 'self._index', 'self._length', 'self._ready', 'self._unsorted.*',
+                            'self._cache.*'], ex)
+        env = {'self': me, 'i0': i0, 'l0': l0}
+        ex.path.assume(ex.spec_bool(wf + ' and self._index >= i0 and (l0 is None or self._length == l0)', env))
+        gset(ex, 'waits', SV(IntS, gget(ex, 'waits').e + 1))
+        gset(ex, 'woke_len', ex.spec_eval('len(self._items)', env))
+        gset(ex, 'woke_finished', ex.spec_eval('self._length is not None and self._index == val(self._length)', env))
+        if ex.path.decide(ex.spec_bool('len(self._items) > 0', env)):
+            gset(ex, 'woke_first', ex.spec_eval('at(self._items, 0)', env))
+        return SNone()
+    w.externals.update({'<opaque>.notify': lambda ex, a, k: SNone()})
+    # (billiard.exceptions re-exports multiprocessing.TimeoutError: a plain Exception subclass)
+    w.global_overrides['pool.TimeoutError'] = lambda ex: VClass('TimeoutError')
+    return [Contract(
+        'pool.IMapIterator.next', prop=PROP, variants=['wait'],
+        params={'self': ref('Job'), 'timeout': opt(RealS)},
+        externals={'<opaque>.wait': ext_wait},
+        requires={'wf': wf, 'has_to_block': 'len(self._items) == 0 and '
+                                            'not (self._length is not None and self._index == val(self._length))',
+                  'ghost': 'g.waits == 0'},
+        modifies=['self._items.*', 'self._index', 'self._length', 'self._ready', 'self._unsorted.*', 'self._cache.*',
+                  'g.waits', 'g.woke_len', 'g.woke_finished', 'g.woke_first'],
+        returns=ValS,
+        ensures={'waited_once': 'g.waits == 1',
+                 'hands_out_the_oldest_item_queued_meanwhile': 'g.woke_len > 0 and g.woke_first[0] and '
+                                                               'result == g.woke_first[1] and '
+                                                               'len(self._items) == g.woke_len - 1'},
+        raises={
+            'StopIteration': {'woken_by_the_end_of_the_iteration': 'g.waits == 1 and g.woke_len == 0 and g.woke_finished '
+                                                                    'and self._ready'},
+            'TimeoutError': {'only_when_still_nothing_queued_and_not_over': 'g.waits == 1 and g.woke_len == 0 and '
+                                                                            'not g.woke_finished'},
+            'Exception': {'a_failed_item_queued_meanwhile_raises_at_its_position': 'g.woke_len > 0 and '
+                          'not g.woke_first[0] and len(self._items) == g.woke_len - 1'},
+        },
+    )]
+
+
 def build(w, variant='map'):
     if variant == 'feeder':
         return build_feeder(w)
+    if variant == 'wait':
+        return build_next_blocking(w)
     if variant != 'map':
         return build_imap(w, variant)
     ps.declare(w, kind='map')
